@@ -2,8 +2,12 @@
 Transformations for IPv6 addresses.
 """
 
+import re
 import socket
 import typing
+
+# Regular expression matching a valid subnet mask (before the range check).
+_MASK_REGEXP = re.compile("[0-9]+")
 
 
 def net_address(value: str, raise_error_if_malformed: bool = False) -> str:
@@ -142,6 +146,8 @@ def _str_to_addr_bytes_and_mask(
         raise ValueError(f"Invalid IPv6 address: {value}") from None
     if mask is not None:
         try:
+            if not _MASK_REGEXP.fullmatch(mask):
+                raise ValueError()
             mask = int(mask)
             if mask < 0 or mask > 128:
                 raise ValueError()
